@@ -17,6 +17,13 @@ def subsets(xs):
 
 def mk(cv, sv, cs=None, nos=(), cg=(23, 24), sg=(23, 24), shares=1, scsv=0, edit=None, kind="pair", expect=1):
     cs = list(cs if cs is not None else POOL)
+    # nos: per-session operations on the server's enabled set, in order: an id disables the suite, ("+", id) enables it again
+    nosops = list(nos)
+    eff = []
+    for o in nosops:
+        if isinstance(o, tuple): eff = [x for x in eff if x != o[1]]
+        elif o not in eff: eff.append(o)
+    nos = tuple(eff)
     # versions are passed in priority order: highest first (the default preference)
     cv = sorted(cv, reverse=True); sv = sorted(sv, reverse=True)
     # a client can only be created with suites usable by at least one of its versions; keep the usable ones
@@ -33,7 +40,7 @@ def mk(cv, sv, cs=None, nos=(), cg=(23, 24), sg=(23, 24), shares=1, scsv=0, edit
     co = "ver=%s suites=%s groups=%s shares=%d" % (",".join(cv), ",".join(hex(s) for s in cs), ",".join(str(g) for g in cg), shares)
     if scsv: co += " scsv=1"
     so = "ver=%s groups=%s" % (",".join(sv), ",".join(str(g) for g in sg))
-    if nos: so += " nosuites=%s" % ",".join(hex(s) for s in nos)
+    if nosops: so += " nosuites=%s" % ",".join(("+" + hex(o[1])) if isinstance(o, tuple) else hex(o) for o in nosops)
     L = [SRV, CLI, "new s0 server keys=ks %s" % so, "new c0 client keys=kc %s" % co, "link c0 s0"]
     if edit is None:
         L += ["pump c0 s0 max=60"]
@@ -65,6 +72,16 @@ def episodes(tier, seed):
         for nos in ((), (0xc02f,), (0x1301, 0x1302), (0x2f, 0xc013, 0x3c), tuple(T13S), tuple(LEG)):
             for cv, sv in ((VERS, VERS), (["T12"], VERS), (VERS, ["T11", "T12"]), (["T11", "T13"], VERS)):
                 E.append(mk(cv, sv, cs=cs, nos=nos, kind="suites"))
+    # suites disabled and enabled again on the server session, in various orders; the client wants what stays disabled
+    for cv, sv in ((VERS, VERS), (["T12"], VERS), (["T13"], ["T13"]), (["T11", "T12"], ["T11", "T12"])):
+        pool = [x for x in POOL if any((x in T13S and v == "T13") or (x in (0x2f, 0xc013) and v in ("T11", "T12")) or (x in (0xc02f, 0x3c) and v == "T12") for v in cv)]
+        for a in pool:
+            for b in pool:
+                if a == b: continue
+                for ops in ([a, b, ("+", a)], [b, a, ("+", a)], [a, b, ("+", a), ("+", b), b], [a, ("+", a), b]):
+                    if tier == "quick" and rnd.random() > 0.3: continue
+                    E.append(mk(cv, sv, cs=[b], nos=ops, kind="suites-reenable"))
+                    E.append(mk(cv, sv, cs=[b, a], nos=ops, kind="suites-reenable"))
     # groups / HelloRetryRequest
     for cg, shares, sg in (((23, 24), 1, (24,)), ((24, 23), 1, (23,)), ((23,), 1, (24,)), ((24,), 1, (23, 24)), ((23, 24), 2, (24, 23)), ((23, 24), 0, (23,))):
         E.append(mk(VERS, VERS, cg=cg, shares=shares, sg=sg, kind="groups"))
